@@ -141,7 +141,7 @@ impl Prop for C11 {
         let max_s = if tier == Tier::Thorough { 24 } else { 12 };
         let mut p = CallSetParams::standard(max_s, 12);
         p.allow_ploidy = true;
-        p.kind_w = [4, 3, 2, 3, 1, 1, 3, 3, 1, 1];
+        p.kind_w = [4, 3, 2, 3, 1, 1, 3, 3, 1, 1, 3, 2];
         if idx % 16 == 15 {
             p.allow_ploidy = false;
             let (callset, cfg) = gen::gen_callset(&mut rng, &p);
